@@ -59,22 +59,10 @@ Value builtin_str_substring(Value *args) {
     long long length = args[2].as.int_val;
     long long str_len = nl_cstr_length(str);
 
-    if (start < 0 || start > str_len) {
-        fprintf(stderr, "Error: str_substring start index out of bounds\n");
-        return create_void();
-    }
-
-    if (length < 0) {
-        fprintf(stderr, "Error: str_substring length cannot be negative\n");
-        return create_void();
-    }
-
-    if (start == str_len) {
-        if (length == 0) {
-            return create_string("");
-        }
-        fprintf(stderr, "Error: str_substring start index out of bounds\n");
-        return create_void();
+    /* STDLIB.md: "I return an empty string if start is out of bounds"; the compiled program (nl_str_substring)
+     * also gives "" for a negative length */
+    if (start < 0 || start >= str_len || length < 0) {
+        return create_string("");
     }
 
     char *result = nl_cstr_substring(str, start, length);
